@@ -272,10 +272,35 @@ def gen_input(rng, fnname, valid):
         kind = "valid:%s,%s" % (k1, k2)
         if not valid:
             kb, Ub = gen_U(rng, False, fnname)
-            if rng.chance(0.5):
+            r = rng.below(10)
+            if r < 3:
                 U1, kind = Ub, "first:" + kb
-            else:
+            elif r < 6:
                 U2, kind = Ub, "second:" + kb
+            elif r == 6:
+                kc, Uc = gen_U(rng, False, fnname)
+                U1, U2, kind = Ub, Uc, "both:%s,%s" % (kb, kc)
+            elif r == 7:
+                # the same invalid matrix twice: the relative rotation is the identity
+                d = [1.0, 1.0, 1.0]
+                d[rng.below(3)] = -1.0
+                Ui = np.asarray(U1, dtype=np.float64).dot(np.diag(d))
+                U1, U2, kind = Ui, Ui.copy(), "both:same_improper"
+            elif r == 8:
+                # two different improper matrices: their product is a proper rotation
+                d1 = [1.0, 1.0, 1.0]
+                d1[rng.below(3)] = -1.0
+                d2 = [1.0, 1.0, 1.0]
+                d2[rng.below(3)] = -1.0
+                U1 = np.asarray(U1, dtype=np.float64).dot(np.diag(d1))
+                U2 = np.asarray(U2, dtype=np.float64).dot(np.diag(d2))
+                kind = "both:improper_pair"
+            else:
+                # complementary scaling: each argument is far from orthonormal, the product is not
+                sc = 1.0 + rng.loguniform(3e-3, 0.5)
+                U1 = np.asarray(U1, dtype=np.float64) * sc
+                U2 = np.asarray(U2, dtype=np.float64) / sc
+                kind = "both:complementary_scale"
         # Umis does no dtype conversion of its own; mixed dtypes are legal input
         args = [core.enc_array(U1), core.enc_array(U2), rng.between(1, 7)]
     elif cls == "euler":
@@ -461,8 +486,12 @@ def generate(rng, tier, index):
                     ops.append(["pcall", fk, iid, rng.below(1 << 16), _pick_assign(rng, allow_invalid_assign), rd])
             else:
                 ops.append(["call", fk, iid, rd])
-    return {"property": PROPERTY, "config": {"fault_free": not (allow_invalid_assign or allow_preempt),
-                                             "scribble": rng.chance(0.3)},
+    cfg = {"fault_free": not (allow_invalid_assign or allow_preempt), "scribble": rng.chance(0.3)}
+    if rng.chance(0.3):
+        # two real client threads (baton passing): which one performs each operation
+        p1 = rng.choice([0.2, 0.5])
+        cfg["threads"] = [1 if rng.chance(p1) else 0 for _ in ops]
+    return {"property": PROPERTY, "config": cfg,
             "inputs": inputs, "ops": ops}
 
 
@@ -494,6 +523,68 @@ class _Violation(Exception):
     def __init__(self, clause, site, detail):
         Exception.__init__(self, clause)
         self.v = {"clause": clause, "site": site, "detail": detail}
+
+
+class _Baton(object):
+    """One real worker thread next to the main thread.  Exactly one of the two runs at any time: the other one is
+    parked on a queue, so the interleaving is decided by the trace, not by the OS (and replays exactly)."""
+
+    def __init__(self):
+        import queue
+        self.to_worker = queue.Queue()
+        self.to_main = queue.Queue()
+        self.thread = None
+
+    def _loop(self):
+        while True:
+            fn = self.to_worker.get()
+            if fn is None:
+                return
+            try:
+                out = ("ok", fn())
+            except BaseException as e:  # noqa
+                out = ("exc", e)
+            self.to_main.put(("done", out))
+
+    def _ensure(self):
+        import threading
+        if self.thread is None:
+            self.thread = threading.Thread(target=self._loop, name="xsim-second-party", daemon=True)
+            self.thread.start()
+
+    def on_worker(self, fn):
+        """called on the main thread: run fn on the worker, serving its requests to run something on main"""
+        self._ensure()
+        self.to_worker.put(fn)
+        while True:
+            kind, payload = self.to_main.get()
+            if kind == "call":
+                try:
+                    r = ("ok", payload())
+                except BaseException as e:  # noqa
+                    r = ("exc", e)
+                self.reply.put(r)
+            else:
+                if payload[0] == "exc":
+                    raise payload[1]
+                return payload[1]
+
+    def on_main_from_worker(self, fn):
+        """called on the worker thread (inside a trace function): run fn on the main thread and wait"""
+        import queue
+        if not hasattr(self, "reply"):
+            self.reply = queue.Queue()
+        self.to_main.put(("call", fn))
+        kind, val = self.reply.get()
+        if kind == "exc":
+            raise val
+        return val
+
+    def stop(self):
+        if self.thread is not None:
+            self.to_worker.put(None)
+            self.thread.join(5)
+            self.thread = None
 
 
 def execute(trace):
@@ -542,6 +633,26 @@ def execute(trace):
     n_assign = n_call = 0
     inputs = trace["inputs"]
 
+    import queue as _queue
+    import threading as _threading
+    baton = _Baton()
+    baton.reply = _queue.Queue()
+    thr = trace["config"].get("threads")        # per-op thread id (0 main, 1 the real second thread) or None
+    main_ident = _threading.get_ident()
+
+    def run_on(t, fn):
+        """run fn on thread t (called from the main thread)"""
+        if not t:
+            return fn()
+        count("threads.ops_on_second_thread")
+        return baton.on_worker(fn)
+
+    def on_other(fn):
+        """run fn on the thread that is NOT the current one (called from inside a trace function)"""
+        if _threading.get_ident() == main_ident:
+            return baton.on_worker(fn)
+        return baton.on_main_from_worker(fn)
+
     def read_switch():
         return xfab.CHECKS.activated
 
@@ -573,8 +684,10 @@ def execute(trace):
                 raise _Violation("invalid assignment not rejected with ValueError", where,
                                  "assigning %s -> %s" % (tag, raised or "no exception"))
 
+    cur_thread = [0]
+
     def check_switch(where):
-        cur = read_switch()
+        cur = run_on(cur_thread[0], read_switch)
         if cur is not on:
             raise _Violation("switch state differs from last valid assignment", where,
                              "activated=%r model=%r" % (cur, on))
@@ -752,10 +865,12 @@ def execute(trace):
             check_switch("start")
             for opi, op in enumerate(trace["ops"]):
                 kind = op[0]
+                t_op = int(thr[opi]) if (thr and opi < len(thr)) else 0
+                cur_thread[0] = t_op
                 if kind == "assign":
                     tag = op[1]
                     before = on
-                    raised = do_assign(tag)
+                    raised = run_on(t_op, lambda: do_assign(tag))
                     n_assign += 1
                     count("tt.%s|assign|%s" % (int(before), tag))
                     if tag not in VALID_ASSIGN:
@@ -785,7 +900,7 @@ def execute(trace):
                     n_call += 1
                     cls_tag = "valid" if inp["valid"] else ("malformed" if inp.get("malformed") else "invalid")
                     if kind == "call":
-                        outcome, value, _, _ = call(fk, iid)
+                        outcome, value, _, _ = run_on(t_op, lambda: call(fk, iid))
                         count("tt.%s|call|%s|%s" % (int(on), fk, cls_tag))
                         count("container.%s" % inputs[iid].get("container", "n/a"))
                         count("callstyle.%s" % inputs[iid].get("callstyle", "positional"))
@@ -798,7 +913,7 @@ def execute(trace):
                     else:
                         k, tag = op[3], op[4]
                         # pass 1: plain traced call, counts the pre-emption points and is itself judged
-                        outcome, value, nline, _ = call(fk, iid, inject=(-1, None))
+                        outcome, value, nline, _ = run_on(t_op, lambda: call(fk, iid, inject=(-1, None)))
                         judge(fk, iid, inp, outcome, value, {on}, fk)
                         if nline == 0:
                             raise core.HarnessError("no line events traced inside %s" % fk)
@@ -816,12 +931,19 @@ def execute(trace):
                                 continue
                             inp2 = spec_of(iid2)
 
-                            def action():
+                            def action0():
                                 res["second"] = call(fk2, iid2)
                         else:
-                            def action():
+                            def action0():
                                 res["raised"] = do_assign(tag)
-                        outcome, value, nline2, fired = call(fk, iid, inject=(at, action))
+                        if thr:
+                            # the second party is a real thread: the action runs there while this one is parked
+                            def action():
+                                count("threads.preemptions_on_other_thread")
+                                on_other(action0)
+                        else:
+                            action = action0
+                        outcome, value, nline2, fired = run_on(t_op, lambda: call(fk, iid, inject=(at, action)))
                         if second_call:
                             count("fault.preempting_guarded_call")
                             count("preempt_point.%s@%d" % (fk, at))
@@ -862,6 +984,10 @@ def execute(trace):
         finally:
             sys.settrace(None)
             try:
+                baton.stop()
+            except Exception:
+                pass
+            try:
                 # epilogue: leave a settled, read-back True for the next run of this worker
                 xfab.CHECKS.activated = False
                 _ = xfab.CHECKS.activated
@@ -888,15 +1014,22 @@ def shrink_candidates(trace):
     import copy
     ops = trace["ops"]
     n = len(ops)
+    thr = trace["config"].get("threads")
     # drop chunks of ops (ddmin style granularity)
     size = n // 2
     while size >= 1:
         for start in range(0, n, size):
             t = copy.deepcopy(trace)
             t["ops"] = ops[:start] + ops[start + size:]
+            if thr:
+                t["config"]["threads"] = thr[:start] + thr[start + size:]
             if len(t["ops"]) < n:
                 yield t
         size //= 2
+    if thr:
+        t = copy.deepcopy(trace)
+        del t["config"]["threads"]
+        yield t
     for i, op in enumerate(ops):
         if op[0] == "pcall":
             t = copy.deepcopy(trace)
@@ -933,7 +1066,7 @@ def shrink_candidates(trace):
 
 
 def trace_size(trace):
-    return (len(trace["ops"]), sum(1 for op in trace["ops"] if op[0] == "pcall"),
+    return (len(trace["ops"]), 1 if trace["config"].get("threads") else 0, sum(1 for op in trace["ops"] if op[0] == "pcall"),
             sum(1 for i in trace["inputs"] if i is not None and i["kind"] not in ("simple", "malformed")),
             sum(1 for i in trace["inputs"] if i is not None))
 
